@@ -16,6 +16,7 @@ import OFV.Proofs.C07Hop
 import OFV.Proofs.C07DCp
 import OFV.Proofs.C07DoubleComm
 import OFV.Proofs.C07DCMain
+import OFV.Proofs.C07TermInfo
 
 namespace OFV.C07
 open OFV OFV.Spec OFV.Spec.C07 OFV.Model OFV.Model.C07 OFV.Proofs.C07 OFV.Proofs.C07F
@@ -527,6 +528,43 @@ theorem dc_commutator_sound (tol : Rat) (a b prior : List (List (Nat × Nat) × 
         (Proofs.C03.fockInterp.evalOp a * Proofs.C03.fockInterp.evalOp b -
           Proofs.C03.fockInterp.evalOp b * Proofs.C03.fockInterp.evalOp a) :=
   dc_commutator_sound_ring Proofs.C03.fockInterp fock_CARRel Proofs.C07D.fock_ι_mul tol a b prior ha hb
+
+/-! ### `trivially_double_commutes_dual_basis_using_term_info` -/
+
+/-- **`term_info_sound`, ring form.**  Let `α`, `β`, `α'` be grouped terms of the dual-basis Hamiltonian
+(`Spec.C07.DualGroup`: hopping group `t (i^ j + j^ i)`, number group `w i^ j^ i j + c_i i^ i + c_j j^ j`
+on two distinct modes, or external-potential term `c_i i^ i` on one mode; arbitrary coefficients),
+described to the function by their index sets `idx` and hopping flags exactly as
+`low_depth_second_order_trotter_error_operator` does (both settings of `external_potential_at_end`).
+If `jellium_only` is passed as `True` only when the number groups among `β`, `α'` have `c_i = c_j`
+(the promise in the docstring), then a `True` answer implies `[α, [β, α']] = 0` in every ring with the
+anticommutation relations.  All three reasons the function gives are covered: two number groups; the
+jellium rule (`|indices_β ∩ indices_α'| ≠ 1`, i.e. disjoint or the same pair of modes); `α` disjoint
+from `β` and `α'`. -/
+theorem term_info_sound_ring {A : Type} [Ring A] (I : Proofs.C03.Interp A) (h : CARRel I)
+    (a b c : DualGroup) (jellium : Bool) (ha : a.WF) (hb : b.WF) (hc : c.WF)
+    (hj : jellium = true → (b.hop = false → b.ci = b.cj) ∧ (c.hop = false → c.ci = c.cj))
+    (hT : triviallyDoubleCommutesTermInfo a.idx b.idx c.idx a.hop b.hop c.hop jellium = true) :
+    I.evalOp a.op * (I.evalOp b.op * I.evalOp c.op - I.evalOp c.op * I.evalOp b.op) -
+      (I.evalOp b.op * I.evalOp c.op - I.evalOp c.op * I.evalOp b.op) * I.evalOp a.op = 0 := by
+  rw [Proofs.C07R.grp_evalOp h.car a ha, Proofs.C07R.grp_evalOp h.car b hb, Proofs.C07R.grp_evalOp h.car c hc]
+  exact Proofs.C07R.termInfo_sound h.car a b c jellium hb hc hj hT
+
+/-- `term_info_sound` on the Fock space of the Spec. -/
+theorem term_info_sound (a b c : DualGroup) (jellium : Bool) (ha : a.WF) (hb : b.WF) (hc : c.WF)
+    (hj : jellium = true → (b.hop = false → b.ci = b.cj) ∧ (c.hop = false → c.ci = c.cj))
+    (hT : triviallyDoubleCommutesTermInfo a.idx b.idx c.idx a.hop b.hop c.hop jellium = true) :
+    Proofs.C03.fockInterp.evalOp a.op *
+        (Proofs.C03.fockInterp.evalOp b.op * Proofs.C03.fockInterp.evalOp c.op -
+          Proofs.C03.fockInterp.evalOp c.op * Proofs.C03.fockInterp.evalOp b.op) -
+      (Proofs.C03.fockInterp.evalOp b.op * Proofs.C03.fockInterp.evalOp c.op -
+          Proofs.C03.fockInterp.evalOp c.op * Proofs.C03.fockInterp.evalOp b.op) *
+        Proofs.C03.fockInterp.evalOp a.op = 0 :=
+  term_info_sound_ring Proofs.C03.fockInterp fock_CARRel a b c jellium ha hb hc hj hT
+
+/-- the jellium promise matters: with `jellium_only = True` the function answers `True` for a hopping
+and a number group on the same pair of modes whatever `c_i`, `c_j` are (kernel-checked instance). -/
+example : triviallyDoubleCommutesTermInfo [1, 0] [1, 0] [1, 0] true true false true = true := by decide
 
 /-! ### `double_commutator`, generic path -/
 
